@@ -75,7 +75,9 @@ def layer_checks(job):
                 fb = g2.get_features(rr / 2, spin=1)
                 n += 1
                 sel = rho[0] > 1e-6
-                if rel(fa[:, sel], f1[:, sel]) > 1e-9 or rel(fb[:, sel], f1[:, sel]) > 1e-9:
+                # (1e-8: the two plans reach the same features through differently scaled interpolation solves; seed 4 drew 1.5e-9,
+                # a wrong spin factor is O(1))
+                if rel(fa[:, sel], f1[:, sel]) > 1e-8 or rel(fb[:, sel], f1[:, sel]) > 1e-8:
                     bad = int(np.argmax([rel(fa[i, sel], f1[i, sel]) for i in range(f1.shape[0])]))
                     kind = "dot" if (ver in ("i", "ij") and bad >= f1.shape[0] - len(nl.l1_feat_dots)) else "l0"
                     viol.append({"site": "layer:nldf-generator:%s:%s:%s" % (ver, level, kind), "detail": {"plan": plan, "feature": bad, "err": rel(fa[:, sel], f1[:, sel])}})
